@@ -229,6 +229,18 @@ def _check_case(ctx, r, variant):
 from ..mutate import mutate_pair  # noqa: E402
 
 
+def _all_tags(x, out=None):
+    out = [] if out is None else out
+    if isinstance(x, ht.Tag):
+        out.append(x)
+        for c in list(x.children):
+            _all_tags(c, out)
+    elif isinstance(x, ht.TagList):
+        for c in list(x):
+            _all_tags(c, out)
+    return out
+
+
 def check_mutation_history(ctx, r):
     """The tree after public-API mutations is a tree like any other: render, mutate, render again."""
     import copy as _c
@@ -236,14 +248,20 @@ def check_mutation_history(ctx, r):
     r = gen.unshare(r)
     live = gen.build(r)
     live.get_html_string()  # first rendering (a cache filled here must not survive the mutations)
+    # what tagify() returned is another tree: scribbling all over it shows nowhere in the tree it was made from
+    twin = live.tagify()
+    for t_ in _all_tags(twin):
+        t_.attrs["data-only-on-the-tagified-tree"] = "1"
+        t_.add_class("only-on-the-copy")
+        t_.append("ONLY-ON-THE-COPY")
+        t_.name = "renamed-copy"
+    ctx.count("tagified_twins_scribbled_on")
     log = []
     for _ in range(ctx.rng.randint(1, 4)):
         m = mutate_pair(ctx.rng, live, r)
         if m:
             log.append(m)
         live.get_html_string(1, "\r\n")
-    if not log:
-        return
     out = live.get_html_string()
     ctx.count("oracle.parse_back_after_mutation")
     wit = {"recipe_after_mutation": r, "mutations": log, "output": out[:2000]}
